@@ -202,7 +202,7 @@ def shape_helpers(self_ref, SZ=SZ):
 
 class SHAPE:
     """index = ((body index) * n_helpers + helper) * n_spellings + spelling"""
-    SPELL = (('a', ''), ('_a', ''), ('a', '?'), ('a', '!'), ('t', 'T'), ('_t', 'T'))    # 'T' = template t{p} used as t{X}
+    SPELL = (('a', ''), ('_a', ''), ('a', '?'), ('a', '!'), ('t', 'T'), ('_t', 'T'), ('a', '!?'), ('a', '?!'))    # 'T' = template t{p} used as t{X}
 
     def __init__(self, n, spellings=None, ignore=(), extra_terms=(), zlit='z', terms=None, extra_helpers=None):
         """zlit: the anonymous string literal of the menu; 'x' makes it coincide with the named terminal X (one
@@ -258,3 +258,62 @@ class SHAPE:
             helper = Rule(name, mod, None, alts)
         rules = [Rule('start', '', None, ((body, None),)), helper]
         return Grammar(rules, self.terms + self.extra_terms, self.ignore)
+
+
+# ---------------------------------------------------------------------------------------------------
+# LISTS: start: u v [...] where u and v are list-like helper rules (empty / recursive / EBNF), inlined or not.
+# Targets the in-place child-list reuse of the LALR tree builder and empty reductions.
+
+def list_shapes(me, t):
+    X = ('tok', t)
+    R = ('ref', me)
+    return [
+        (((), None), ((R, X), None)),            # u: | u X
+        (((), None), ((X, R), None)),            # u: | X u
+        (((X,), None), ((R, X), None)),          # u: X | u X
+        (((('star', X),), None),),               # u: X*
+        (((('plus', X),), None),),               # u: X+
+        (((('opt', X),), None),),                # u: X?
+        (((), None),),                           # u:
+        (((), None), ((R, X, X), None)),         # u: | u X X
+    ]
+
+
+class LISTS:
+    SPELLS = (('', ''), ('_', ''), ('', '?'))
+    BODIES = (('u', 'v'), ('u', 'v', 'X'), ('v', 'u'), ('u', 'u'), ('X', 'u', 'v'), ('u', 'Y', 'v'), ('w', 'v'))
+
+    def __init__(self):
+        self.ns = len(list_shapes('u', 'X'))
+        self.size = (self.ns * len(self.SPELLS)) ** 2 * len(self.BODIES)
+
+    def __len__(self):
+        return self.size
+
+    def grammar(self, idx):
+        idx, bi = divmod(idx, len(self.BODIES))
+        per = self.ns * len(self.SPELLS)
+        ui, vi = divmod(idx, per)
+        rules = []
+        names = {}
+        for key, i, t in (('u', ui, 'X'), ('v', vi, 'Y')):
+            sh, sp = divmod(i, len(self.SPELLS))
+            pre, mod = self.SPELLS[sp]
+            name = pre + key
+            names[key] = name
+            rules.append(Rule(name, mod, None, tuple(list_shapes(name, t)[sh])))
+        body = self.BODIES[bi]
+        items = []
+        for b in body:
+            if b in ('X', 'Y'):
+                items.append(('tok', b))
+            elif b == 'w':
+                items.append(('ref', 'w'))
+            else:
+                items.append(('ref', names[b]))
+        start = [Rule('start', '', None, ((tuple(items), None),))]
+        if 'w' in body:     # w: an empty non-inlined rule in front ("head")
+            start.append(Rule('w', '', None, (((), None),)))
+            items_u = names['u']
+            start[0] = Rule('start', '', None, ((tuple([('ref', 'w'), ('ref', names['u']), ('ref', names['v'])]), None),))
+        return Grammar(start + rules, XY_TERMS)
